@@ -804,6 +804,33 @@ pub fn exec_rt(t: &[&str]) -> String {
     }
 }
 
+/// `sens <fast> <R10> <hex>`: one digit per parser option — does changing that option alone change what
+/// `from_slice_custom` makes of the text (value, or error code and position)?
+pub fn exec_sens(t: &[&str]) -> String {
+    let data = unhex(t[3]);
+    let run = |ro: &str| -> String {
+        match catch_unwind(AssertUnwindSafe(|| lexpr::from_slice_custom(&data, parse_opts(ro)))) {
+            Ok(r) => item_value(r.map(Some)),
+            Err(_) => "panic".into(),
+        }
+    };
+    let base = run(t[2]);
+    let mut out = String::new();
+    for i in 0..10 {
+        let cur = t[2].as_bytes()[i];
+        let vals: &[u8] = if i == 3 { b"012" } else { b"01" };
+        let mut changed = false;
+        for v in vals.iter().filter(|v| **v != cur) {
+            let mut alt = t[2].as_bytes().to_vec();
+            alt[i] = *v;
+            if run(std::str::from_utf8(&alt).unwrap()) != base { changed = true; }
+        }
+        out.push(if changed { '1' } else { '0' });
+    }
+    out.push_str(" ok");
+    out
+}
+
 /// `specrd <S|E> <hex text> ;; <value>`: what an independent reader of the documented grammar must make of the
 /// text the printer wrote for the value: the value itself (default options), its Emacs Lisp folding (Emacs options).
 /// The model side answers with what the specification reader (not the model of the crate's parser) reads.
@@ -870,6 +897,7 @@ pub fn exec(line: &str) -> String {
         "cmp" => exec_cmp(&t),
         "rt" => exec_rt(&t),
         "specrd" => exec_specrd(&t),
+        "sens" => exec_sens(&t),
         "prefix" => exec_prefix(&t),
         "pp" | "ppe" => exec_pp(&t),
         "triv" => exec_triv(&t),
